@@ -51,13 +51,46 @@ func mkChan(elem int) reflect.Value {
 		return reflect.ValueOf(make(chan *int))
 	case 3:
 		return reflect.ValueOf(make(chan error))
+	case 4:
+		return reflect.ValueOf(make(chan namedSlice))
+	case 5:
+		return reflect.ValueOf(make(chan []int))
+	case 6:
+		return reflect.ValueOf(make(chan (<-chan int)))
 	}
 	return reflect.ValueOf(make(chan interface{}))
 }
 
+type namedSlice []int
+
 func notVal(tok string) interface{} {
+	if strings.HasPrefix(tok, "nsl=") {
+		return namedSlice{atoi(tok[4:])}
+	}
 	v, _ := mkVal(tok)
 	return v
+}
+
+// notCanon renders a received value; named slices and receive-only channels are specific to this family.
+func notCanon(v reflect.Value) string {
+	if v.IsValid() && v.Kind() == reflect.Interface && !v.IsNil() {
+		v = v.Elem()
+	}
+	if v.IsValid() {
+		switch x := v.Interface().(type) {
+		case namedSlice:
+			if x == nil {
+				return "nsl=nil"
+			}
+			return fmt.Sprintf("nsl=%d", x[0])
+		case <-chan int:
+			if x == nil {
+				return "rch=nil"
+			}
+			return fmt.Sprintf("rch=%d", cap(x))
+		}
+	}
+	return canonVal(v)
 }
 
 func (x *notExec) waitIter() (refs []int, n int, returned bool, ok bool) {
@@ -264,7 +297,7 @@ func execNotifier(t *trace, script []string) {
 					r = "none"
 				} else {
 					delete(x.pending, s.id)
-					t.Line(line, "val "+canonVal(v))
+					t.Line(line, "val "+notCanon(v))
 					x.afterChoice(line)
 					continue
 				}
@@ -274,7 +307,7 @@ func execNotifier(t *trace, script []string) {
 					{Dir: reflect.SelectDefault},
 				})
 				if chosen == 0 {
-					r = "val " + canonVal(v)
+					r = "val " + notCanon(v)
 				} else {
 					r = "none"
 				}
@@ -350,7 +383,7 @@ func genNotifier(r *rng.R, tier string, i int) []string {
 		if r.Chance(65) {
 			ctx = 1
 		}
-		subs = append(subs, gs{k, r.Pick(80, 20), []int{0, 0, 1, 2, 3}[r.Intn(5)], ctx})
+		subs = append(subs, gs{k, r.Pick(80, 20), []int{0, 0, 1, 2, 3, 4, 5, 6}[r.Intn(8)], ctx})
 	}
 	for _, g := range subs {
 		s = append(s, fmt.Sprintf("sub %d %d %d %d", g.id, g.key, g.elem, g.ctx))
@@ -368,7 +401,7 @@ func genNotifier(r *rng.R, tier string, i int) []string {
 		if r.Chance(25) {
 			s = append(s, fmt.Sprintf("cancelsub %d", r.Intn(nsubs)))
 		}
-		val := []string{"int=5", "nil", "pint=3", "perr=2", "int=7"}[r.Intn(5)]
+		val := []string{"int=5", "nil", "pint=3", "perr=2", "int=7", "sl=4", "nsl=6", "ch=2"}[r.Intn(8)]
 		pctx := r.Intn(2)
 		pre := 0
 		if pctx == 1 && r.Chance(10) {
